@@ -301,6 +301,13 @@ func c11Run(t *testing.T, nspawn int) func(c *vsched.Chooser) vsched.Outcome {
 	}
 }
 
+func c11Bound(n int) int {
+	if n >= 3 && !vsched.Rep().Thorough() {
+		return 0
+	}
+	return 1
+}
+
 func TestVerifC11(t *testing.T) {
 	defer vsched.Finish(t)
 	r := vsched.Rep()
@@ -311,9 +318,10 @@ func TestVerifC11(t *testing.T) {
 	maxSp := vsched.Pick(3, 4)
 	for n := 2; n <= maxSp; n++ {
 		scs = append(scs, vsched.Scenario{
-			Cfg: vsched.Config{Scenario: fmt.Sprintf("c11/%d-spawners", n), Bound: 1, Params: map[string]any{"spawners": n}},
+			// quick: the extra operation (cost 1) only with 2 spawners; thorough: with 2, 3 and 4
+			Cfg: vsched.Config{Scenario: fmt.Sprintf("c11/%d-spawners", n), Bound: c11Bound(n), Params: map[string]any{"spawners": n}},
 			Run: c11Run(t, n),
 		})
 	}
-	vsched.ExploreAll(scs)
+	lfExploreAll(scs)
 }
